@@ -277,6 +277,16 @@ func oracleC17(f *sessionFam, w *World, res *Result) []Violation {
 						name = "io"
 					}
 					want := name + "=" + w.SockIDs[r.Client]
+					if w.SockIDs[r.Client] == "" {
+						// the session was never announced (closed while the handshake was still running, e.g. by a
+						// shutdown in that instant): the harness does not know its id - take it from the open packet
+						if i := strings.Index(string(r.Body), `"sid":"`); i >= 0 {
+							rest := string(r.Body)[i+7:]
+							if j := strings.Index(rest, `"`); j >= 0 {
+								want = name + "=" + rest[:j]
+							}
+						}
+					}
 					if !strings.HasPrefix(sc[0], want+";") && sc[0] != want {
 						l.add("cookie-value-is-session-id", "", fmt.Sprintf("%s: Set-Cookie %q, expected it to start with %q (the session id)", r.Client, sc[0], want))
 					}
